@@ -10,13 +10,13 @@ LEVEL = "exploration"
 RULE = ("seeded abstract messages over the whole grammar (21 kinds, sampled optional-attribute subsets, 0..5 children); "
         "for each, EVERY single-point perturbation is built (each attribute changed/dropped/added, text changed, each "
         "child at every index changed/dropped/duplicated/swapped/replaced by a part of another kind with the same name and value, "
-        "kind changed to a sibling kind) and compared with == "
+        "kind changed to a sibling kind; and edits made IN PLACE (or on a deep copy) after the two messages had been compared and rendered) and compared with == "
         "and != against the original, plus an independently rebuilt copy; a pair is non-trivial when the two structural "
         "views differ (perturbation) or are identical (copy); distinct = hash(original, perturbation)")
 ASSUMPTIONS = ["the structural view (vf.ref.view) reads instance attributes only and strips text, except for the white-space-only perturbation where the stored values are compared as they are; '' == absent text, () == absent children, "
                "0 == '0' are not demanded to differ",
                "messages are built through the library constructors, as a user would"]
-REQUIRED_EVENTS = ["pairs_unequal_expected", "pairs_equal_expected", "child_index_perturbations", "child_kind_pairs", "whitespace_only_pairs"]
+REQUIRED_EVENTS = ["pairs_unequal_expected", "pairs_equal_expected", "child_index_perturbations", "child_kind_pairs", "whitespace_only_pairs", "edits_after_a_comparison"]
 SHARDED = True
 
 QUICK_SHARDS = 4
@@ -280,6 +280,54 @@ def check_child_kind(ctx, am, case):
                 break
 
 
+def check_after_comparison(ctx, am, case):
+    """Equality has no memory: two equal messages are compared (and rendered), THEN one of them is edited in place - a child's
+    value / name / label, an attribute deleted, a deep copy edited - and must compare unequal; edited back, equal again."""
+    ch = am.get("children") or []
+    a = G.lib_message(am)
+    b = G.lib_message(copy.deepcopy(am))
+    if not (a == b) or a != b:
+        return                      # reported by check_copy
+    try:
+        a.to_dict(), b.to_dict(), repr(a), repr(b), hash
+    except Exception:
+        pass
+    edits = []
+    for i, c in enumerate(ch):
+        edits.append((f"child-name@{i}", lambda m, i=i: (m.children[i], "name", str(m.children[i].name) + "_")))
+        if c.get("text") and G.PARTS[c["tag"]]["value"] == "Text":
+            edits.append((f"child-value@{i}", lambda m, i=i: (m.children[i], "value", str(m.children[i].value) + "x")))
+        if "label" in G.PARTS[c["tag"]]["opt"]:
+            edits.append((f"child-label@{i}", lambda m, i=i: (m.children[i], "label", "edited label")))
+    for attr in ("device", "name", "message", "timestamp"):
+        if attr in am["attrs"]:
+            edits.append((f"attr:{attr}", lambda m, attr=attr: (m, attr, str(getattr(m, attr)) + "_")))
+    for label, edit in edits:
+        for via in ("in-place", "deep-copy"):
+            target = b if via == "in-place" else copy.deepcopy(b)
+            if via == "deep-copy" and not (target == a):
+                ctx.violate("equal-compare-unequal:deep-copy", "a deep copy of an equal message compares unequal", case, {"a": am})
+                return
+            obj, name, new = edit(target)
+            old = getattr(obj, name)
+            setattr(obj, name, new)
+            ctx.count("edits_after_a_comparison")
+            eq, ne = (a == target), (a != target)
+            setattr(obj, name, old)
+            back = (a == target)
+            if eq or not ne:
+                n = len(ch)
+                idx = int(label.split("@")[1]) if "@" in label else None
+                pos = "" if idx is None else ("-last-child" if idx == n - 1 else "-non-last-child")
+                ctx.violate(f"unequal-compare-equal:edited-after-a-comparison:{label.split('@')[0]}{pos}:{via}",
+                            f"{am['tag']}: after comparing equal, {label} was edited ({via}) and the messages still compare equal", dict(case, pert=label), {"a": am})
+                return
+            if not back:
+                ctx.violate(f"equal-compare-unequal:edited-back:{label.split('@')[0]}:{via}", f"{am['tag']}: {label} edited and restored, the messages no longer compare equal",
+                            dict(case, pert=label), {"a": am})
+                return
+
+
 def check_copy(ctx, am, case):
     a = G.lib_message(am)
     b = G.lib_message(copy.deepcopy(am))
@@ -324,6 +372,7 @@ def one_case(ctx, case):
     check_copy(ctx, am, case)
     check_parts(ctx, am, case)
     check_child_kind(ctx, am, case)
+    check_after_comparison(ctx, am, case)
     ctx.case({"am": am}, nontrivial=n > 0, sample={"message": am, "perturbations": n})
 
 
